@@ -31,6 +31,7 @@ var c09Pkgs = []c09Pkg{
 	{"fmt", "fmt", "Sprint"}, {"strings", "strings", "ToUpper"}, {"text/template", "template", "New"},
 	{"html/template", "template", "New"}, {"math/rand", "rand", "Int"}, {"crypto/rand", "rand", "Reader"},
 	{"os", "os", "Args"}, {"path", "path", "Join"}, {"path/filepath", "filepath", "Join"}, {"go/ast", "ast", "NewIdent"},
+	{"math/rand/v2", "rand", "Int"}, // a third package named rand
 }
 
 type c09Op struct {
@@ -233,6 +234,9 @@ func c09Corpus() [][]c09Op {
 		// forced then referenced; referenced then forced
 		{{K: "force", F: 0, P: 6}, {K: "ref", F: 0, P: 6, Kept: false}, {K: "write", F: 0}},
 		{{K: "ref", F: 0, P: 6, Kept: true}, {K: "force", F: 0, P: 6}, {K: "write", F: 0}},
+		// three packages of the same name in one file, alone and next to a declaration named like the first renaming
+		{{K: "ref", F: 0, P: 4, Kept: true}, {K: "ref", F: 0, P: 5, Kept: true}, {K: "ref", F: 0, P: 10, Kept: true}, {K: "write", F: 0}},
+		{{K: "declare", F: 0, Name: "rand1", How: "var"}, {K: "ref", F: 0, P: 10, Kept: true}, {K: "ref", F: 0, P: 4, Kept: true}, {K: "ref", F: 0, P: 5, Kept: true}, {K: "write", F: 0}},
 		// a name declared after the first write
 		{{K: "ref", F: 0, P: 1, Kept: true}, {K: "write", F: 0}, {K: "declare", F: 0, Name: "strings", How: "func"}, {K: "write", F: 0}},
 	}
